@@ -379,10 +379,12 @@ func runC12(tier, replay string) {
 	allS := `{"ret","panic","spanic","call"}`
 	allJ := `{"break","continue","goto","fgoto","label","fallthrough"}`
 	fconfs := []flowConf{{name: "full-alphabet-5", cfg: flowCfg(5, 4, `{"L"}`, allK, allS, allJ, 3)},
-		{name: "simple-statements-5", cfg: flowCfg(5, 3, `{"L"}`, `{"ifb","for","closure"}`, `{"ret","assign","define","incdec","send","defer","go","var"}`, `{}`, 3)}}
+		{name: "simple-statements-5", cfg: flowCfg(5, 3, `{"L"}`, `{"ifb","for","closure"}`, `{"ret","assign","define","incdec","send","defer","go","var"}`, `{}`, 3)},
+		{name: "clause-trailing-label-9", cfg: flowCfg(9, 4, `{"L"}`, `{"switch","select"}`, `{"ret"}`, `{"fgoto","label"}`, 2)}}
 	if tier == "thorough" {
 		fconfs = []flowConf{{name: "full-alphabet-6", cfg: flowCfg(6, 5, `{"L"}`, allK, allS, allJ, 3)},
-			{name: "if-else-block-panic-9", cfg: flowCfg(9, 6, `{"L"}`, `{"ifb","block"}`, `{"ret","panic","spanic"}`, `{}`, 2)}}
+			{name: "if-else-block-panic-9", cfg: flowCfg(9, 6, `{"L"}`, `{"ifb","block"}`, `{"ret","panic","spanic"}`, `{}`, 2)},
+			{name: "clause-trailing-label-9", cfg: flowCfg(9, 4, `{"L"}`, `{"switch","select"}`, `{"ret"}`, `{"fgoto","label"}`, 2)}}
 	}
 	for _, c := range fconfs {
 		var mu sync.Mutex
